@@ -153,6 +153,17 @@ CLAIMS["C10"] = (
     "Trusted: numpy.where / comparison semantics, IEEE-754 exact division at n/n. Selection rules and protocol parameters are not enumerated.",
     "DESIGN.md §4 C10")
 
+CLAIMS["C13"] = (
+    "spec congruence of estimator formulas through an algebraic normal form + format-specialised evaluation (kinship = 0.5 x coancestry) + keyword/attribute "
+    "agreement of labels + int8-accumulator rule (ast)",
+    "Decides: the four from_gmat estimators normalise to their published formulas (molecular both ploidies, VanRaden, Yang, generalised weighted) with "
+    "the matrix's own afreq() as default reference frequencies and scalar arguments broadcast from themselves; each is a Gram form A.A' of one value A "
+    "(symmetric by construction); in all nine format-taking methods and the two accessors the kinship value is exactly half the coancestry value (or the "
+    "inverse of the halved matrix); taxa, taxa_grp and group metadata come from the same-named attributes of the source; min/max inbreeding match their "
+    "linear-algebra definitions; no Gram product runs in int8. Positive semidefiniteness and equivariance as numerical relations are not decided.",
+    "Trusted: numpy dot/matmul/linalg semantics. The reference formulas are transcribed from the class docstrings / the cited papers.",
+    "DESIGN.md §4 C13")
+
 NOT_YET = "rule set not built yet (build in progress; see DESIGN.md §8)"
 NA = {}
 
